@@ -7,9 +7,14 @@ import (
 	"time"
 )
 
-// native replay only: widen the window between flushLog's two selects
+// native replay only: widen the window between flushLog's two selects - on about half of the
+// passages, so that repeated replays see both the widened and the plain timing
 func init() {
 	if os.Getenv("VERIF_YIELD") != "" {
-		VerifYield = func() { time.Sleep(2 * time.Millisecond) }
+		VerifYield = func() {
+			if time.Now().UnixNano()/1000%2 == 0 {
+				time.Sleep(2 * time.Millisecond)
+			}
+		}
 	}
 }
